@@ -455,3 +455,106 @@ func c18Stateless(c *Ctx) {
 		c.R.Errorf("only %d encryptor methods found", len(methods))
 	}
 }
+
+// ---- C18.key-from-passphrase: the key is a function of exactly the passphrase bytes, fixed at construction
+
+func init() {
+	register(&Rule{Name: "C18.key-from-passphrase", Min: 2, Run: c18KeyFromPassphrase,
+		Doc: "the encryptor's key is derived in the constructor from the passphrase bytes as given: the caller's slice is not retained, and nothing edits the bytes on their way into the KDF"})
+	byProp["C18"] = append(byProp["C18"], "C18.key-from-passphrase")
+	explain["C18"] += " key-from-passphrase: 'a different passphrase is reported as an error' needs the key to be an injective-looking function of the passphrase bytes, fixed when the encryptor is built. (1) In V1NodeEncryptor the passphrase parameter is only read — passed to functions / copy — never stored into the encryptor or captured by a closure: a key derived lazily from the caller's buffer depends on what the buffer holds later (a wiped buffer gives the all-zero passphrase's key). (2) In deriveKey the KDF input depends on the parameter through append / slicing / the fixed base64 encoding only, never through a bytes/strings/unicode transformation (trimming line ends makes different passphrases share a key and strands data written under the untrimmed one)."
+}
+
+func c18KeyFromPassphrase(c *Ctx) {
+	const rule = "C18.key-from-passphrase"
+	ctor := mustFunc(c, "kv", "", "V1NodeEncryptor")
+	dk := mustFunc(c, "kv", "", "deriveKey")
+	if ctor == nil || dk == nil {
+		return
+	}
+	// (1) no retention
+	{
+		name := core.FuncName(ctor)
+		p := ctor.Params[0]
+		bad := ""
+		seen := map[ssa.Value]bool{}
+		var walk func(v ssa.Value, d int)
+		walk = func(v ssa.Value, d int) {
+			if seen[v] || d > 6 || v.Referrers() == nil {
+				return
+			}
+			seen[v] = true
+			for _, r := range *v.Referrers() {
+				switch x := r.(type) {
+				case *ssa.Store:
+					if x.Val == v {
+						bad = "stored at " + c.P.Pos(x.Pos())
+					}
+				case *ssa.MakeClosure:
+					bad = "captured by a closure at " + c.P.Pos(x.Pos())
+				case *ssa.Slice:
+					walk(x, d+1)
+				case *ssa.ChangeType:
+					walk(x, d+1)
+				case *ssa.MakeInterface:
+					bad = "boxed into an interface at " + c.P.Pos(x.Pos())
+				case *ssa.Phi:
+					walk(x, d+1)
+				case *ssa.Go, *ssa.Defer:
+					bad = "handed to a goroutine / deferred call"
+				}
+			}
+		}
+		walk(p, 0)
+		derives := false
+		for _, call := range an.Calls(ctor) {
+			if call.Common().StaticCallee() == dk {
+				for _, a := range call.Common().Args {
+					if an.Unwrap(a) == ssa.Value(p) {
+						derives = true
+					}
+				}
+			}
+		}
+		c.R.Cond(bad == "" && derives, rule, name+": key derived at construction, passphrase not retained", c.P.Pos(ctor.Pos()),
+			"the passphrase is only passed to deriveKey",
+			fmt.Sprintf("the caller's passphrase slice is retained (%s; derived here: %v): the key then depends on what that buffer holds when the first node is sealed — a caller that wipes or reuses the buffer seals the data under another passphrase's key", bad, derives))
+	}
+	// (2) the KDF input is the passphrase as given
+	{
+		name := core.FuncName(dk)
+		master := dk.Params[0]
+		n := 0
+		for _, call := range an.Calls(dk) {
+			f := call.Common().StaticCallee()
+			if f == nil || !strings.HasPrefix(an.PkgPathOf(f), "golang.org/x/crypto/") {
+				continue
+			}
+			n++
+			edit := ""
+			reaches := false
+			for _, a := range call.Common().Args {
+				an.DependsOn(a, func(v ssa.Value) bool {
+					if v == ssa.Value(master) {
+						reaches = true
+					}
+					if cl, ok := v.(*ssa.Call); ok {
+						if g := cl.Call.StaticCallee(); g != nil {
+							switch an.PkgPathOf(g) {
+							case "bytes", "strings", "unicode", "unicode/utf8", "golang.org/x/text/unicode/norm":
+								edit = an.PkgPathOf(g) + "." + g.Name()
+							}
+						}
+					}
+					return false
+				})
+			}
+			c.R.Cond(reaches && edit == "", rule, fmt.Sprintf("%s: %s gets the passphrase as given", name, f.Name()), c.P.Pos(call.Pos()),
+				"the KDF input depends on the passphrase parameter through append / slicing / base64 only",
+				fmt.Sprintf("the KDF input passes through %s (reaches the parameter: %v): passphrases that differ only in what it edits away derive the same key, and data written under the unedited passphrase no longer opens", edit, reaches))
+		}
+		if n == 0 {
+			c.R.Unk(rule, name+": KDF", c.P.Pos(dk.Pos()), "no call into golang.org/x/crypto found in deriveKey")
+		}
+	}
+}
